@@ -104,7 +104,12 @@ impl Sandbox {
         let _ = std::os::unix::fs::symlink("OUTSIDE-link-body", o.join("link"));
         // a two-level forest with the inside alphabet next to the root and in
         // the stash (where a '..' from a moved-out directory lands)
-        for top in [self.base.clone(), self.stash()] {
+        // ... and in a sibling whose name reads like the kernel's decoration of an
+        // unlinked root in /proc/<pid>/fd links ("<root> (deleted)"): checks that
+        // compare such link texts must not take it for the root
+        let lookalike = self.base.join("root (deleted)");
+        mkdir_p(&lookalike);
+        for top in [self.base.clone(), self.stash(), lookalike] {
             for n in ["a", "b", "c", "d", "e"] {
                 let d = top.join(n);
                 mkdir_p(&d);
@@ -164,11 +169,13 @@ impl Sandbox {
     pub fn reset_root(&self, spec: &TreeSpec) {
         rm_rf(&self.root());
         rm_rf(&self.base.join("root.moved"));
-        if let Ok(rd) = std::fs::read_dir(self.stash()) {
-            for e in rd.flatten() {
-                let n = e.file_name().to_string_lossy().to_string();
-                if is_attacker_name(&n) {
-                    rm_rf(&e.path());
+        for dir in [self.stash(), self.base.join("root (deleted)")] {
+            if let Ok(rd) = std::fs::read_dir(dir) {
+                for e in rd.flatten() {
+                    let n = e.file_name().to_string_lossy().to_string();
+                    if is_attacker_name(&n) {
+                        rm_rf(&e.path());
+                    }
                 }
             }
         }
